@@ -229,6 +229,12 @@ def after_solve(world, rec):
         return
     if "delivery" in names and rec.caps:
         check_delivery(world, rec)
+    if not ok and "attr" in names and len(rec.caps) >= 2 and (rec.op.get("cfg") or {}).get("heuristic") \
+            and getattr(rec.caps[0].answer, "status", None) == "optimal":
+        # the first call succeeded and a later call of the dimension reduction failed: the multipliers and the
+        # residual exposed at that moment must still be one certificate, the one of problem 1 of *this* solve
+        check_attr_dual(world, rec)
+        world.reach["phase_one_certificate_after_second_phase_failure"] += 1
     if ok and not getattr(rec, "spontaneous", False):
         if "attr" in names:
             check_attr_dual(world, rec)
